@@ -102,6 +102,7 @@ class Gate:
         self.guards = []      # (smt condition, text)
         self.macro = None     # (cmp_atom_prefix, default_bool)
         self.notes = []
+        self.opaque = {}      # header id -> name of a helper predicate outside the grammar
 
     # -- macro and statics ---------------------------------------------------------------
     def parse_statics(self):
@@ -210,6 +211,17 @@ class Gate:
             if a is None:
                 raise Inconclusive(f"is_some on unknown binding {var}")
             return a if m.group(2) == "some" else f"(not {a})"
+        # a helper predicate applied to one header binding, e.g. `version_matches(sec_websocket_version)`:
+        # its body is outside the grammar, so its verdict is an UNCONSTRAINED atom.  The equivalence
+        # query then has abstract counterexamples ("the helper may disagree with the specification's
+        # comparison"); they are concretised by trying near-miss values of that header against the
+        # real service (see `opaque_replay`) - reported only if one of them really differs.
+        m = re.fullmatch(r"(\w+)\(\s*(\w+)\s*\)", e)
+        if m and m.group(2) in self.bind and self.bind[m.group(2)] in ("connection", "upgrade", "version", "protocol"):
+            h = self.bind[m.group(2)]
+            self.opaque[h] = m.group(1)
+            self.notes.append(f"{h} is decided by the helper `{m.group(1)}` whose body is outside the grammar: modelled as an unconstrained predicate")
+            return f"opq_{h}"
         raise Inconclusive(f"condition outside the grammar: {e!r}")
 
     @staticmethod
@@ -376,7 +388,7 @@ def smt_preamble(atoms):
 
 
 ATOMS = ["method_get", "psk_cfg", "psk_eq", "psk_eqci", "on_upgrade", "obfs"] + [f"present_{h}" for h in ("connection", "upgrade", "key", "protocol", "version", "psk")] + \
-        [f"{p}_{h}" for p in ("eqci", "eqex", "other") for h in ("connection", "upgrade", "version", "protocol")]
+        [f"{p}_{h}" for p in ("eqci", "eqex", "other", "opq") for h in ("connection", "upgrade", "version", "protocol")]
 
 SPEC_UPGRADE = "(and method_get (or (not psk_cfg) psk_eq) present_key eqci_connection eqci_upgrade eqci_version eqci_protocol)"
 
@@ -457,6 +469,66 @@ REPLAY_TEST = '''
         }}
     }}
 '''
+
+
+OPAQUE_TEST = '''
+    #[tokio::test]
+    async fn verif_c14_replay() {{
+        static PSK: HeaderValue = HeaderValue::from_static("correct PSK");
+        crate::tests::setup_logging();
+        let state = State::new().await.unwrap().with_backend_http2_support(false){psk};
+        let wanted: &str = "{wanted}";
+        let candidates: &[&str] = &[{cands}];
+        let mut diffs: Vec<String> = Vec::new();
+        for cand in candidates {{
+            let mk = |path: &str| {{
+                let mut b = Request::builder().uri(format!("wss://example.com{{path}}")).method(Method::GET);
+                {headers}
+                b = b.header("{hname}", *cand);
+                b = b.extension(hyper::upgrade::on(http::Request::new(EmptyBody::new())));
+                b.body(EmptyBody::new()).unwrap()
+            }};
+            let ws = state.call(mk("/ws")).await.unwrap();
+            let upgraded = ws.status() == StatusCode::SWITCHING_PROTOCOLS;
+            let spec = cand.as_bytes().eq_ignore_ascii_case(wanted.as_bytes());
+            if upgraded != spec {{
+                diffs.push(format!("{{cand:?}} -> upgraded={{upgraded}}, the specification says {{spec}}"));
+            }}
+        }}
+        assert!(diffs.is_empty(), "VERIF-C14 header {hname}: {{}}", diffs.join("; "));
+    }}
+'''
+
+
+def opaque_replay(h, statics, scratch: Path):
+    """The gate's decision on header `h` is a helper outside the grammar: try near-miss values of that
+    header (everything else valid, PSK configured and correct) against the real service."""
+    names = dict(connection="connection", upgrade="upgrade", version="sec-websocket-version", protocol="sec-websocket-protocol")
+    wanted = dict(connection="upgrade", upgrade="websocket", version="13", protocol=statics.get("WANTED_PROTOCOL", "penguin-v7"))
+    w = wanted[h]
+    cands = [w, w.upper(), w.capitalize(), "0" + w, "00" + w, "+" + w, w + " ", " " + w, w + "x", "x" + w, w[:-1], w + w, w + ".0", w + "," + w, w + ";", "-" + w, "0x" + w]
+    seen, cl = set(), []
+    for c in cands:
+        if c and c not in seen:
+            seen.add(c)
+            cl.append(c)
+    others = [(names[k], wanted[k]) for k in names if k != h] + [("sec-websocket-key", "dGhlIHNhbXBsZSBub25jZQ=="), ("x-penguin-psk", "correct PSK")]
+    hl = "\n                ".join(f'b = b.header("{k}", "{v}");' for k, v in others)
+    dst = scratch / "repo-c14"
+    shutil.copytree(REPO, dst, ignore=shutil.ignore_patterns("target", ".git", "SEED"))
+    f = dst / "penguin" / "src" / "server" / "service.rs"
+    txt = f.read_text()
+    test = OPAQUE_TEST.format(psk=".with_ws_psk(Some(&PSK))", wanted=w, cands=", ".join(json.dumps(c) for c in cl), headers=hl, hname=names[h])
+    i = txt.rstrip().rfind("}")
+    f.write_text(txt[:i] + test + "}\n")
+    env = dict(os.environ, CARGO_NET_OFFLINE="true", CARGO_TARGET_DIR=str(scratch / "target-c14"))
+    p = subprocess.run(["cargo", "test", "-p", "rusty-penguin", "--lib", "--offline", "verif_c14_replay"], cwd=dst, env=env, capture_output=True, text=True, timeout=3000)
+    out = p.stdout + p.stderr
+    m = re.search(r"test result: (ok|FAILED)\. (\d+) passed; (\d+) failed", out)
+    if not m or int(m.group(2)) + int(m.group(3)) == 0:
+        return None, out[-800:], cl
+    msg = re.findall(r"VERIF-C14[^\n]*", out)
+    return (m.group(1) == "FAILED"), (msg[0] if msg else out[-300:]), cl
 
 
 def native_replay(req, expect_upgrade, scratch: Path):
@@ -542,7 +614,19 @@ def main():
                 lines.append(f"KNOWN-FINDING: property=C14 {what}")
                 continue
             reproduced, detail = (None, "no replay for routing queries")
-            if q is q1 or q is q2:
+            opq = [h for h in g.opaque if (q is q1)]
+            if opq:
+                # abstract counterexample through an unconstrained helper predicate: concretise
+                scratch.mkdir(parents=True, exist_ok=True)
+                try:
+                    reproduced, detail, tried = opaque_replay(opq[0], g.statics, scratch)
+                finally:
+                    shutil.rmtree(scratch, ignore_errors=True)
+                req = dict(header=opq[0], helper=g.opaque[opq[0]], candidates_tried=tried)
+                what = f"{q['name']}: the helper `{g.opaque[opq[0]]}` decides header {opq[0]}; {detail}"
+                if reproduced is False:
+                    raise Inconclusive(f"header {opq[0]} is decided by the helper `{g.opaque[opq[0]]}` (outside the grammar) and none of the {len(tried)} near-miss values tried distinguishes it from the specification's comparison")
+            elif q is q1 or q is q2:
                 # expected = the specification's verdict for this request
                 spec_txt = pre + "".join(f"(assert {'' if val else '(not '}{a}{'' if val else ')'})\n" for a, val in v.items() if a in ATOMS) + f"(assert {SPEC_UPGRADE})\n(check-sat)\n"
                 sr, _, _ = run_solver(["/usr/bin/z3", "-in", "-smt2"], spec_txt)
